@@ -74,7 +74,12 @@ def one_run(dev, td, cfg, ref):
     N, k = cfg["N"], cfg["k"]
     skipN = 3 if cfg["stage"] == "thermal" else 0
     opts = runs.make_options(None, solve_time=N * DT, skip_time=skipN * DT, dt_init=DT, dt_max=DT, adaptive=False,
-                             save_every=k, output_file=out_path)
+                             save_every=k, output_file=out_path, pause_on_interrupt=bool(cfg.get("pause")))
+    import builtins
+    old_input = builtins.input
+    if cfg.get("pause"):
+        # the documented default: a KeyboardInterrupt pauses the run and asks; "n" cancels (like a plain cancellation), "y" resumes
+        builtins.input = lambda *a_, **k_: cfg["pause"]
     exc_type = RuntimeError if cfg["kind"] == "err" else KeyboardInterrupt
     calls = {"n": 0}
     old_tmp = tempfile.tempdir
@@ -140,6 +145,7 @@ def one_run(dev, td, cfg, ref):
         runner_mod.DataHandler.save_time_step = orig_save
         runner_mod._get = orig_get
         tempfile.tempdir = old_tmp
+        builtins.input = old_input
         os.chdir(cwd0)
     rec["handles_left"] = open_handles() - h0
     rec["listing"] = sorted(os.listdir(work))
@@ -214,6 +220,11 @@ def judge(rep, cfg, rec, ref_frames):
         if rec["readable"] is False:
             rep.violation("output file is not readable after the stop", {**case, "error": rec.get("read_error")})
     exp = expected_labels(cfg["N"], cfg["k"], cfg["p"], cfg["kind"], cfg["where"], cfg["stage"])
+    if cfg.get("pause") == "y" and cfg["kind"] == "kbd":
+        # paused and resumed: nothing was stopped, the output is the complete run
+        exp = expected_labels(cfg["N"], cfg["k"], 10 ** 6, "kbd", "update", "main")
+        if rec["exc"] is not None or rec["result"] != "Solution":
+            rep.violation("a paused run that the user resumed did not finish with a solution", {**case, **rec_small(rec)})
     if rec["frames"] is not None:
         labels = [f["step"] for f in rec["frames"]]
         if [f["idx"] for f in rec["frames"]] != list(range(len(rec["frames"]))):
@@ -225,6 +236,8 @@ def judge(rep, cfg, rec, ref_frames):
                           {**case, "frames": [(f["step"], f["complete"]) for f in rec["frames"]]})
         elif exp is not None and labels != exp:
             rep.violation(f"frames in the output {labels} are not exactly the frames recorded before the stop {exp}", case)
+        elif cfg["stage"] == "thermal":
+            pass          # recorded after a thermalisation: not the trajectory of the (unthermalised) reference run
         else:
             for f in rec["frames"]:
                 if f["complete"] and f["step"] in ref_frames and ref_frames[f["step"]] != f["psi"]:
@@ -232,7 +245,9 @@ def judge(rep, cfg, rec, ref_frames):
                                   {**case, "step": f["step"]})
                     break
     reached = exp is None or rec["exc"] is not None or True
-    if cfg["kind"] == "kbd":
+    if cfg["kind"] == "kbd" and cfg.get("pause") == "y":
+        pass
+    elif cfg["kind"] == "kbd":
         if cfg["stage"] == "thermal" and cfg["where"] == "update":
             if rec["result"] != "None":
                 rep.violation("cancellation during thermalisation did not return None", {**case, **rec_small(rec)})
@@ -386,6 +401,12 @@ def run(rep: common.Report, tier: str, seed: int, replay=None) -> int:
         cfgs.append(dict(id=cid, N=N, k=k_, p=p, kind=kind, where="update", stage="main", explicit=True, preexisting=[],
                          solved_before=True))
         cid += 1
+    # the documented default pause_on_interrupt=True: the user is asked and declines ("n": a cancellation like any other, in either
+    # stage) or accepts ("y": the run goes on and the output is complete)
+    for stage, p in (("main", 2), ("main", 4), ("thermal", 1), ("thermal", 0)):
+        for ans in ("n", "y"):
+            cfgs.append(dict(id=cid, N=N, k=3, p=p, kind="kbd", where="update", stage=stage, explicit=True, preexisting=[], pause=ans))
+            cid += 1
     # relative output name + the working directory changes during the run, stopped by an error / a cancellation / not at all
     for kind, p in (("err", 3), ("kbd", 4), ("kbd", 2), ("err", 10 ** 6)):
         cfgs.append(dict(id=cid, N=N, k=3, p=p, kind=kind, where="update", stage="main", explicit=True, preexisting=[],
@@ -405,7 +426,7 @@ def run(rep: common.Report, tier: str, seed: int, replay=None) -> int:
             rep.nontrivial((cfg["k"], cfg["kind"], cfg["where"], cfg["stage"], cfg["explicit"], tuple(cfg["preexisting"]),
                             cfg["p"] % cfg["k"] == 0))
             if cfg["where"] == "update" and cfg["stage"] == "main" and cfg["explicit"] and rec["frames"] is not None \
-                    and not cfg.get("solved_before") and not cfg.get("chdir_during"):
+                    and not cfg.get("solved_before") and not cfg.get("chdir_during") and cfg.get("pause") != "y":
                 model_cases.append((cfg, [f["step"] for f in rec["frames"]], rec.get("out_name")))
     for c in cfgs[:3] + cfgs[-3:]:
         rep.sample({k_: c[k_] for k_ in ("N", "k", "p", "kind", "where", "stage", "explicit", "preexisting")})
